@@ -463,18 +463,24 @@ class StreamClient:
             raise exceptions.ProtocolError("an error occurred during streaming") from ex
         finally:
             self._packet_backlog.clear()  # Don't keep old packets around (big!)
-            if transport:
-                # TODO: Teardown should not be done here. In fact, nothing should be
-                # closed here since the connection should be reusable for streaming
-                # more audio files. Refactor when support for that is added.
-                await self.rtsp.teardown(self.context.rtsp_session)
-                transport.close()
-            self._protocol.teardown()
-            self.close()
+            try:
+                if transport:
+                    # TODO: Teardown should not be done here. In fact, nothing should
+                    # be closed here since the connection should be reusable for
+                    # streaming more audio files. Refactor when support for that is
+                    # added.
+                    await self.rtsp.teardown(self.context.rtsp_session)
+            finally:
+                # Free everything also when the teardown request fails or is cancelled
+                # (e.g. the connection is already gone)
+                if transport:
+                    transport.close()
+                self._protocol.teardown()
+                self.close()
 
-            listener = self.listener
-            if listener:
-                listener.stopped()
+                listener = self.listener
+                if listener:
+                    listener.stopped()
 
     async def _stream_data(  # pylint: disable=too-many-locals
         self, source: AudioSource, transport
